@@ -315,17 +315,17 @@ def run(ctx):
     rng = ctx.rng
     # small sets, fully enumerated (bounded)
     for proto in (("v2c", "noauth"), ("v3", "authpriv")):
-        for _ in range(ctx.budget(5, 40)):
+        for _ in range(ctx.budget(5, 16)):
             n = rng.choice([2, 2, 3])
             ops = [rng.choice(OPS) for _ in range(n)]
             two = rng.random() < 0.3
             opset = [((i % 2) if two else 0, op) for i, op in enumerate(ops)]
-            sets.append((opset, proto, ctx.budget(60, 2000), None))
-        for _ in range(ctx.budget(2, 20)):  # larger sets: sampled schedules
+            sets.append((opset, proto, ctx.budget(60, 600), None))
+        for _ in range(ctx.budget(2, 8)):  # larger sets: sampled schedules
             n = rng.choice([4, 5, 6])
             ops = [rng.choice(OPS[:4] + OPS[-2:] + OPS[5:6]) for _ in range(n)]
             opset = [(0, op) for op in ops]
-            sets.append((opset, proto, ctx.budget(25, 300), rng))
+            sets.append((opset, proto, ctx.budget(25, 150), rng))
     model_batch, model_meta = [], []
     for opset, proto, limit, sampler in sets:
         nclients = max(c for c, _ in opset) + 1
@@ -333,7 +333,7 @@ def run(ctx):
         runs, complete = explore(opset, proto, limit, sampler)
         # one operation is cancelled (task.cancel / wait_for timeout) at a random scheduling point:
         # the others must still behave as when run alone
-        for _ in range(ctx.budget(4, 40)):
+        for _ in range(ctx.budget(4, 20)):
             pre = [rng.randrange(len(opset)) for _ in range(rng.randint(0, 6))]
             r = run_schedule(opset, proto, pre, policy=rng.choice(["lowest", "highest"]), cancel=(rng.randint(0, 3), rng.randrange(len(opset))))
             runs.append(r)
